@@ -42,9 +42,10 @@ VARIABLES
   lastAcc,  \* (a) index of the latest accepted connection
   deadc,    \* connections the peer has dropped
   estab,    \* peer indices of the connections the session installed (hook "connected"), in order
+  okc,      \* (a) connections on which the peer presented the expected ASN, in order
   closeRet  \* (a) Close has returned
 
-tvars == <<i, sync, fl, tabs, ann, wrongc, lastAcc, deadc, estab, closeRet>>
+tvars == <<i, sync, fl, tabs, ann, wrongc, lastAcc, deadc, estab, okc, closeRet>>
 
 Big == [sets |-> 1000000, drops |-> 1000000, refuse |-> 1000000]
 Tbl(x) == [r \in Routes |-> x[r]]
@@ -89,7 +90,7 @@ HookAction(o) ==
                                     [] OTHER -> FALSE
     [] o.pt = "connected"      -> ConnectOKWith(lastAcc \notin deadc)
     [] o.pt = "connect.failed" -> ConnectFailed
-    [] o.pt = "run.exit"       -> ConnectClosed \/ EnterClosed \/ WokeClosed
+    [] o.pt = "run.exit"       -> ConnectClosed \/ EnterClosed \/ WokeClosed \/ (snd.pc = "done" /\ Stutter)
     [] o.pt = "gate.connect"   -> (snd.pc = "dial" /\ Stutter) \/ SenderReturnsTrue
     [] o.pt = "gate.sendUpdates" -> snd.pc = "connected" /\ Stutter
     [] o.pt = "fold"           -> FoldAtConnect
@@ -137,7 +138,7 @@ ApplyMsg(o) ==
                       /\ ann' = ann
     [] OTHER       -> UNCHANGED <<tabs, ann>>
 
-FirstEstab(c) == estab = <<>> \/ estab[1] = c
+FirstEstab(c) == okc = <<>> \/ okc[1] = c
 
 SentEvents == {"full.sent", "diff.sent", "diff.withdrawn"}
 
@@ -154,19 +155,19 @@ PeerFails(o) ==
     [] OTHER -> {}
 
 ----------------------------------------------------------------------------
-Init ==
+TInit ==
   /\ InitWith(Big)
   /\ i = 0 /\ sync = TRUE /\ fl = {}
-  /\ tabs = {} /\ ann = {} /\ wrongc = {} /\ lastAcc = 0 /\ deadc = {} /\ estab = <<>> /\ closeRet = FALSE
+  /\ tabs = {} /\ ann = {} /\ wrongc = {} /\ lastAcc = 0 /\ deadc = {} /\ estab = <<>> /\ okc = <<>> /\ closeRet = FALSE
 
-PeerVarsUnchanged == UNCHANGED <<tabs, ann, wrongc, lastAcc, deadc, estab, closeRet>>
+PeerVarsUnchanged == UNCHANGED <<tabs, ann, wrongc, lastAcc, deadc, estab, okc, closeRet>>
 
 Line(o) ==
   CASE o.k = "meta" ->
          /\ ResetModel /\ sync' = o.hooks /\ fl' = {}
-         /\ tabs' = {} /\ ann' = {} /\ wrongc' = {} /\ lastAcc' = 0 /\ deadc' = {} /\ estab' = <<>> /\ closeRet' = FALSE
+         /\ tabs' = {} /\ ann' = {} /\ wrongc' = {} /\ lastAcc' = 0 /\ deadc' = {} /\ estab' = <<>> /\ okc' = <<>> /\ closeRet' = FALSE
     [] o.k = "hook" ->
-         /\ UNCHANGED <<tabs, ann, wrongc, lastAcc, deadc, closeRet>>
+         /\ UNCHANGED <<tabs, ann, wrongc, lastAcc, deadc, okc, closeRet>>
          /\ estab' = IF o.pt = "connected" THEN Append(estab, lastAcc) ELSE estab
          /\ IF ~sync THEN Stutter /\ sync' = sync /\ fl' = PeerFails(o)
             ELSE \/ /\ HookStep(o) /\ sync' = TRUE
@@ -177,24 +178,38 @@ Line(o) ==
                     /\ fl' = PeerFails(o) \cup {"DRIFT." \o o.pt}
     [] o.k = "drop" ->
          /\ ModelDrop(o) /\ deadc' = deadc \cup {o.c} /\ fl' = {}
-         /\ UNCHANGED <<sync, tabs, ann, wrongc, lastAcc, estab, closeRet>>
+         /\ UNCHANGED <<sync, tabs, ann, wrongc, lastAcc, estab, okc, closeRet>>
     [] o.k = "accept" ->
          /\ Stutter /\ lastAcc' = o.c /\ fl' = PeerFails(o)
-         /\ UNCHANGED <<sync, tabs, ann, wrongc, deadc, estab, closeRet>>
+         /\ UNCHANGED <<sync, tabs, ann, wrongc, deadc, estab, okc, closeRet>>
     [] o.k = "sentopen" ->
          /\ Stutter /\ wrongc' = (IF o.wrong THEN wrongc \cup {o.c} ELSE wrongc) /\ fl' = {}
+         /\ okc' = (IF o.wrong THEN okc ELSE Append(okc, o.c))
          /\ UNCHANGED <<sync, tabs, ann, lastAcc, deadc, estab, closeRet>>
     [] o.k = "msg" ->
          /\ Stutter /\ ApplyMsg(o) /\ fl' = PeerFails(o)
-         /\ UNCHANGED <<sync, wrongc, lastAcc, deadc, estab, closeRet>>
+         /\ UNCHANGED <<sync, wrongc, lastAcc, deadc, estab, okc, closeRet>>
     [] o.k = "settled" ->
          /\ Stutter /\ fl' = PeerFails(o) /\ UNCHANGED sync /\ PeerVarsUnchanged
     [] o.k = "close.ret" ->
          /\ Stutter /\ closeRet' = TRUE /\ fl' = {}
-         /\ UNCHANGED <<sync, tabs, ann, wrongc, lastAcc, deadc, estab>>
+         /\ UNCHANGED <<sync, tabs, ann, wrongc, lastAcc, deadc, estab, okc>>
     [] OTHER -> Stutter /\ fl' = {} /\ UNCHANGED sync /\ PeerVarsUnchanged
 
-Next == i < N /\ i' = i + 1 /\ Line(Trace[i + 1])
+(* The sender's exits from sendUpdates after a wake-up (closed: return false; conn = nil: return  *)
+(* true) release s.mu but are logged later, outside the lock ("run.exit" / "gate.connect").  An   *)
+(* event another goroutine logs under s.mu in between proves the sender has left: that unlogged   *)
+(* step is taken first, without consuming a line.                                                 *)
+NeedsImplicit(o) ==
+  o.k = "hook" /\ sync /\ o.g # "sender" /\ o.st /\ snd.pc = "woke" /\ (closed \/ conn = 0)
+ImplicitSenderLeave ==
+  /\ snd' = At(IF closed THEN "done" ELSE "dial") /\ act' = [a |-> "Implicit"]
+  /\ UNCHANGED <<closed, conn, nconn, advertised, new, readers, PeerSide, lastRequested, budget, cnt>>
+  /\ fl' = {} /\ UNCHANGED <<i, sync, tabs, ann, wrongc, lastAcc, deadc, estab, okc, closeRet>>
+
+TNext == /\ i < N
+         /\ LET o == Trace[i + 1] IN
+            IF NeedsImplicit(o) THEN ImplicitSenderLeave ELSE i' = i + 1 /\ Line(o)
 
 Info(o) ==
   IF o.k = "settled"
